@@ -22,12 +22,23 @@ Init == /\ tb \in DOMAIN Tables
         /\ cs \in Cases(tb)
         /\ ph = "new" /\ cur = 0 /\ nx = 0 /\ act = [a |-> "Init"]
 Place == [i \in S |-> IF Included(i) THEN <<Off(i), SegLen(i)>> ELSE <<0 - 1, 0>>]
+\* the unused slot bytes behind every included segment that are gap in this image, and the length class of every supplied payload
+Rests == [i \in S |-> IF Included(i) THEN RestBehind(i) ELSE 0]
+Classes == [i \in S |-> IF cs.present[i] THEN LenClassIn(Segs, i, cs.plen[i]) ELSE "absent"]
 EmitCase == PrintT(ToJson([tb |-> tb, present |-> cs.present, plen |-> cs.plen, req |-> cs.req, refused |-> Refused, eff |-> Eff,
-                           place |-> IF Refused THEN <<>> ELSE Place,
+                           place |-> IF Refused THEN <<>> ELSE Place, rest |-> IF Refused THEN <<>> ELSE Rests, cls |-> Classes,
                            total |-> IF Refused \/ Inc = {} THEN 0 ELSE Max({ Off(i) + SegLen(i) : i \in Inc })]))
 GRefuse == Refuse /\ EmitCase
 GBuild == Build /\ EmitCase
 GNext == GRefuse \/ GBuild \/ Gap \/ Seg \/ End \/ Parse \/ ParseSeg \/ Done
+\* the case space holds every length class of every fixed-size segment kind of the table: shorter than the slot and nominal always,
+\* longer where the next table offset leaves room behind the slot (payload sizes range up to the next segment's offset)
+RoomIn(sg, i) == LET later == { sg[j].off : j \in { k \in DOMAIN sg : k > i /\ sg[k].off >= 0 } }
+                 IN IF sg[i].off < 0 \/ later = {} THEN 0 ELSE Min(later) - sg[i].off
+ClassesInMenu(sg, i) == { LenClassIn(sg, i, n) : n \in Menu(sg, i) }
+ClassesCovered == ph = "new" => \A i \in S : Segs[i].fixed => /\ {"short", "nominal"} \subseteq ClassesInMenu(Segs, i)
+                                                /\ (RoomIn(Segs, i) > Segs[i].size => "long" \in ClassesInMenu(Segs, i))
+                                                /\ \A n \in Menu(Segs, i) : n > 0 /\ (RoomIn(Segs, i) > 0 => n <= RoomIn(Segs, i))
 TypeOK == /\ ph \in {"new", "walk", "parse", "psegs", "done", "refused"} /\ cur \in Nat /\ nx \in 0..(Len(Segs) + 1)
           /\ Len(cs.present) = Len(Segs) /\ Len(cs.plen) = Len(Segs)
 =============================================================================
